@@ -61,7 +61,7 @@ theorem aac_never_panics (st : Aac.Asc) (bs : Bytes) :
 
 /-- AVC NAL unit, configuration record, and sample for every NAL length size. -/
 theorem avc_never_panics (bs : Bytes) :
-    Avc.naluUnmarshal bs ≠ .panic ∧ Avc.recordUnmarshal bs ≠ .panic ∧ ∀ n, 1 ≤ n → Avc.sampleUnmarshal n bs ≠ .panic :=
+    Avc.naluUnmarshal bs ≠ .panic ∧ Avc.recordUnmarshal bs ≠ .panic ∧ ∀ n, 1 ≤ n → n ≤ 7 → Avc.sampleUnmarshal n bs ≠ .panic :=
   C12.decoders_never_panic bs
 
 /-- WebSocket frame reader: `advanceFrame`, `NextReader`, `ReadMessage` from ANY reader state (role, limits,
